@@ -128,6 +128,18 @@ func (fl *flow) path(v ssa.Value, d int) string {
 	case *ssa.Lookup:
 		return fl.path(x.X, d+1) + "[" + fl.path(x.Index, d+1) + "]"
 	case *ssa.Slice:
+		// a slice literal / variadic argument list: the array it is cut from, element by element
+		if a, ok := x.X.(*ssa.Alloc); ok && x.Low == nil && x.High == nil {
+			if _, isArr := a.Type().Underlying().(*types.Pointer).Elem().Underlying().(*types.Array); isArr {
+				if elems := sliceLitElems(x); len(elems) > 0 {
+					var ps []string
+					for _, el := range elems {
+						ps = append(ps, fl.path(el, d+1))
+					}
+					return "[" + strings.Join(ps, ",") + "]"
+				}
+			}
+		}
 		return fl.path(x.X, d+1) + "[:]"
 	case *ssa.Extract:
 		if call, ok := x.Tuple.(*ssa.Call); ok {
@@ -229,13 +241,18 @@ func (fl *flow) throughWrapper(call *ssa.Call, idx int, d int) (string, bool) {
 			}
 		}
 	}
-	if len(set) != 1 {
+	if len(set) == 0 {
 		return "", false
 	}
+	var alts []string
 	for p := range set {
-		return p, true
+		alts = append(alts, p)
 	}
-	return "", false
+	sort.Strings(alts)
+	if len(alts) == 1 {
+		return alts[0], true
+	}
+	return "phi(" + strings.Join(alts, "|") + ")", true
 }
 
 // sel renders base.field; the address-of marker of the base is dropped and embedded (promoted)
@@ -313,7 +330,9 @@ func (fl *flow) call(c *ssa.CallCommon, d int) string {
 	}
 	if sc := c.StaticCallee(); sc != nil {
 		name := fnName(origin(sc))
-		if sc.Signature.Recv() != nil && len(args) > 0 {
+		// rendered after the shape of the REFERENCE name: a method turned into a function of its receiver (or the
+		// reverse) keeps its rendering, like a renamed function keeps its name (newfn.go)
+		if strings.HasPrefix(name, "(") && len(args) > 0 {
 			// the method's reference name (a renamed method keeps it, newfn.go)
 			mname := sc.Name()
 			if i := strings.LastIndex(name, "."); i >= 0 && !strings.Contains(name[i+1:], "$") {
@@ -403,4 +422,77 @@ func allCalls(f *ssa.Function) []ssa.CallInstruction {
 		}
 	})
 	return out
+}
+
+// expandPhi distributes the phi(a|b) alternatives of a rendered path: the result lists every
+// single-valued path the value can take. A requirement "derives from X" must hold of each of
+// them: a value that is X on one branch and something else on the other does not derive from X.
+func expandPhi(p string) []string {
+	out := []string{}
+	var rec func(s string)
+	rec = func(s string) {
+		if len(out) >= 256 {
+			return
+		}
+		i := lastPhi(s)
+		if i < 0 {
+			out = append(out, s)
+			return
+		}
+		depth, j := 0, -1
+		for k := i + 3; k < len(s); k++ {
+			if s[k] == '(' || s[k] == '[' {
+				depth++
+			} else if s[k] == ')' || s[k] == ']' {
+				depth--
+				if depth == 0 {
+					j = k
+					break
+				}
+			}
+		}
+		if j < 0 {
+			out = append(out, s)
+			return
+		}
+		for _, alt := range splitPhi(s[i : j+1]) {
+			rec(s[:i] + alt + s[j+1:])
+		}
+	}
+	rec(p)
+	return out
+}
+
+// lastPhi finds the last "phi(" of s that starts a token (it contains no further phi).
+func lastPhi(s string) int {
+	for end := len(s); ; {
+		i := strings.LastIndex(s[:end], "phi(")
+		if i < 0 {
+			return -1
+		}
+		if i == 0 || !(s[i-1] == '_' || s[i-1] >= '0' && s[i-1] <= '9' || s[i-1] >= 'a' && s[i-1] <= 'z' || s[i-1] >= 'A' && s[i-1] <= 'Z') {
+			return i
+		}
+		end = i
+	}
+}
+
+// allAlts reports whether pred holds of every alternative of the path.
+func allAlts(p string, pred func(string) bool) bool {
+	for _, a := range expandPhi(p) {
+		if !pred(a) {
+			return false
+		}
+	}
+	return true
+}
+
+// has reports whether every alternative of the path contains sub.
+func has(p, sub string) bool {
+	return allAlts(p, func(a string) bool { return strings.Contains(a, sub) })
+}
+
+// hasSuffix reports whether every alternative of the path ends in suf.
+func hasSuffix(p, suf string) bool {
+	return allAlts(p, func(a string) bool { return strings.HasSuffix(a, suf) })
 }
